@@ -325,6 +325,483 @@ def check_c13(ctx):
 
 
 # =====================================================================================================
+# =====================================================================================================
+# C14
+# =====================================================================================================
+import re
+
+EV_RX = re.compile(r"^(?:t(\d+)|c(\d+)\.([RWC])|l(\d+)\.A(\d+)|e(\d+)\.N(\d+)|e(\d+)\.X|ret)@(-?\d+)$")
+
+
+def parse_acts(t):
+    return [] if t == "-" else [a.split(":") for a in t.split(",")]
+
+
+class Monitor:
+    """Direct evaluation of C14 on the implementation's callback log (independent of the Lean model):
+    * removed_never_called: the monitor replays the creations/removals of the op lines and of the
+      callback scripts (k-th callback of object id) and requires every callback to go to a live object;
+    * timer_not_early / timer_order / once per interval: a reference timer table (due, queue sequence)
+      is advanced along the log; every activation must be of the live timer with the least
+      (due, sequence), at a virtual time >= its due time;
+    * run returns only when an interrupt was requested."""
+
+    def __init__(self):
+        self.alive = {}          # id -> kind
+        self.used = set()
+        self.scripts = {}
+        self.calls = {}
+        self.timers = {}         # id -> [due, seq, interval]
+        self.seq = 0
+        self.clock = 1000
+        self.auto = 1000
+        self.intr = False
+        self.err = None
+
+    def fail(self, msg):
+        if self.err is None:
+            self.err = msg
+
+    def act(self, a, newc, ts):
+        op = a[0]
+        if op == "mk":
+            i, iv = int(a[1]), int(a[2])
+            if i not in self.used and i < 1000:
+                self.used.add(i)
+                self.alive[i] = "t"
+                self.timers[i] = [ts + iv, self.seq, iv]
+                self.seq += 1
+        elif op in ("rmt", "rmc", "rml", "rme"):
+            i = int(a[1])
+            if self.alive.get(i) == {"rmt": "t", "rmc": "c", "rml": "l", "rme": "e"}[op]:
+                del self.alive[i]
+                self.timers.pop(i, None)
+        elif op == "rmnew":
+            if newc is not None and self.alive.get(newc) == "c":
+                del self.alive[newc]
+        elif op == "null":
+            if newc is not None:
+                self.alive.pop(newc, None)
+        elif op == "intr":
+            self.intr = True
+
+    def callback(self, i, newc, ts):
+        k = self.calls.get(i, 0)
+        self.calls[i] = k + 1
+        for a in self.scripts.get((i, k), []):
+            self.act(a, newc, ts)
+
+    def top(self, t):
+        op = t[0]
+        if op == "script":
+            self.scripts[(int(t[1]), int(t[2]))] = parse_acts(t[3])
+        elif op == "act":
+            self.act(t[1].split(":"), None, self.clock)
+        elif op in ("mkpair", "mklisten", "mkconn"):
+            i = int(t[1])
+            if i not in self.used and i < 1000:
+                self.used.add(i)
+                self.alive[i] = {"mkpair": "c", "mklisten": "l", "mkconn": "e"}[op]
+        elif op == "adv":
+            self.clock += int(t[1])
+
+    def run_log(self, entries, events):
+        # virtual time only passes inside epoll_wait: by the time-out (which must end at the next due
+        # time) or by the +<ms> of an entry that reports events
+        budget = sum(int(e.split("+")[1]) for e in entries if "+" in e)
+        start = self.clock
+        for e in events:
+            m = EV_RX.match(e)
+            if not m:
+                self.fail(f"unparsable event {e}")
+                return
+            ts = int(m.group(9))
+            if ts < self.clock:
+                self.fail(f"virtual time went backwards at {e}")
+            self.clock = ts
+            if m.group(1) is not None:
+                t = int(m.group(1))
+                if self.alive.get(t) != "t":
+                    self.fail(f"removed_never_called: timer {t} activated after remove() returned ({e})")
+                    return
+                due, seq, iv = self.timers[t]
+                if ts < due:
+                    self.fail(f"timer_not_early: {e} but due at {due}")
+                if ts > max(due, start) + budget:
+                    self.fail(f"timer_timely: {e} but due at {due}: run() slept past the due time of a queued timer")
+                for u, (d2, s2, _) in self.timers.items():
+                    if u != t and (d2, s2) < (due, seq):
+                        self.fail(f"timer_order: {e} (due {due}) before timer {u} (due {d2}, queued earlier)")
+                self.timers[t] = [due + iv, self.seq, iv]
+                self.seq += 1
+                self.callback(t, None, ts)
+            elif m.group(2) is not None:
+                c = int(m.group(2))
+                if self.alive.get(c) != "c":
+                    self.fail(f"removed_never_called: client {c} called back after remove() returned ({e})")
+                    return
+                self.callback(c, None, ts)
+            elif m.group(4) is not None or m.group(6) is not None:
+                o, nc = (int(m.group(4)), int(m.group(5))) if m.group(4) is not None else (int(m.group(6)), int(m.group(7)))
+                kind = "l" if m.group(4) is not None else "e"
+                if self.alive.get(o) != kind:
+                    self.fail(f"removed_never_called: {kind}{o} called back after remove() returned ({e})")
+                    return
+                if nc != self.auto:
+                    self.fail(f"unexpected new client id in {e}")
+                self.auto += 1
+                self.alive[nc] = "c"
+                self.callback(o, nc, ts)
+            elif m.group(8) is not None:
+                o = int(m.group(8))
+                if self.alive.get(o) != "e":
+                    self.fail(f"removed_never_called: e{o} abolished after remove() returned")
+                    return
+                self.callback(o, None, ts)
+            else:  # ret
+                pass
+
+
+def c14_monitor(hist, impl_out):
+    """returns None or a description of the first property violation visible in the implementation's output"""
+    m = Monitor()
+    for line, o in zip(hist, impl_out):
+        t = line.split()
+        if o.startswith("ENV-FAIL") or o == "bad-op":
+            return None if o == "bad-op" else None
+        if t[0] == "run":
+            events = o.split(" | ")[0].split()
+            explicit_i = any(e.startswith("I") for e in t[2:])
+            m.run_log(t[2:], [] if events == ["-"] else events)
+            if not events or not events[-1].startswith("ret@"):
+                m.fail("run() did not return")
+        else:
+            m.top(t)
+        if m.err:
+            return m.err
+        # live set reported by the harness must equal the monitor's
+        live = o.split(" | ")[1].split() if " | " in o else []
+        ids = sorted(int(re.match(r"[tcle](\d+)", x).group(1)) for x in live if re.match(r"[tcle]\d+", x))
+        if ids != sorted(m.alive):
+            return f"live objects {ids} differ from the reference {sorted(m.alive)} after `{line}`"
+    return None
+
+
+def c14_timer_reference(hist):
+    """Independent reference scheduler for histories that contain timers only (no sockets):
+    predicts the complete output of every op."""
+    timers, used, scripts, calls, order = {}, set(), {}, {}, []
+    state = {"clock": 1000, "seq": 1, "intr": False, "default": (0, 0)}
+    out = []
+
+    def live():
+        items = [f"t{i}" for i in order if i in timers]
+        return (" ".join(items) or "-") + f" clk={state['clock']}"
+
+    def act(a):
+        if a[0] == "mk":
+            i, iv = int(a[1]), int(a[2])
+            if i not in used and i < 1000:
+                used.add(i)
+                order.append(i)
+                timers[i] = [state["clock"] + iv, state["seq"], iv]
+                state["seq"] += 1
+        elif a[0] == "rmt":
+            timers.pop(int(a[1]), None)
+        elif a[0] == "intr":
+            state["intr"] = True
+
+    for line in hist:
+        t = line.split()
+        if t[0] == "script":
+            scripts[(int(t[1]), int(t[2]))] = parse_acts(t[3])
+            out.append("ok | " + live())
+        elif t[0] == "act":
+            act(t[1].split(":"))
+            out.append("ok | " + live())
+        elif t[0] == "adv":
+            state["clock"] += int(t[1])
+            out.append("ok | " + live())
+        elif t[0] == "run":
+            entries = list(t[2:])
+            log = []
+            for _ in range(100000):
+                now = state["clock"]
+                while True:
+                    cand = [(v[0], v[1], i) for i, v in timers.items()] + [(state["default"][0], state["default"][1], None)]
+                    d, sq, i = min(cand)
+                    if d > now:
+                        break
+                    if i is None:
+                        state["default"] = (now + 300000, state["seq"])
+                        state["seq"] += 1
+                        continue
+                    timers[i] = [d + timers[i][2], state["seq"], timers[i][2]]
+                    state["seq"] += 1
+                    log.append(f"t{i}@{now}")
+                    k = calls.get(i, 0)
+                    calls[i] = k + 1
+                    for a in scripts.get((i, k), []):
+                        act(a)
+                e = entries.pop(0) if entries else "I"
+                if e.startswith("I"):
+                    state["intr"] = True
+                if state["intr"]:
+                    state["intr"] = False
+                    log.append(f"ret@{state['clock']}")
+                    break
+                nxt = min([v[0] for v in timers.values()] + [state["default"][0]])
+                state["clock"] += nxt - now
+            out.append(" ".join(log) + " | " + live())
+        else:
+            return None
+    return out
+
+
+def c14_reference(hist, impl_out):
+    pure = all(l.split()[0] in ("script", "act", "adv", "run") for l in hist) and \
+        all(a[0] in ("mk", "rmt", "intr") for l in hist if l.split()[0] in ("script", "act")
+            for a in (parse_acts(l.split()[3]) if l.split()[0] == "script" else [l.split()[1].split(":")]))
+    if pure:
+        r = c14_timer_reference(hist)
+        if r is not None:
+            return r
+    return list(impl_out)      # mixed histories: checked by the monitor and against the model
+
+
+c14_reference.uses_impl = True
+
+
+# ---- generators ------------------------------------------------------------------------------------
+def c14_timer_history(rng, equal_due=False):
+    """timers only: 1..8 timers created in one virtual millisecond, intervals 1..3 (or all equal),
+    create/remove (self, others, not yet created) inside callbacks, interrupt from a callback or by schedule"""
+    h = []
+    n = rng.randint(1, 8)
+    base_iv = rng.randint(1, 3)
+    ids = list(range(1, n + 1))
+    extra = list(range(20, 20 + rng.randint(0, 4)))
+    for i in ids:
+        h.append(f"act mk:{i}:{base_iv if equal_due or rng.random() < 0.5 else rng.randint(1, 3)}")
+    allids = ids + extra
+    for i in allids:
+        for k in range(rng.randint(0, 4)):
+            if rng.random() < 0.45:
+                acts = []
+                for _ in range(rng.randint(1, 3)):
+                    r = rng.random()
+                    if r < 0.5:
+                        acts.append(f"rmt:{rng.choice(allids)}")
+                    elif r < 0.9:
+                        acts.append(f"mk:{rng.choice(extra) if extra else 99}:{base_iv if equal_due else rng.randint(1, 3)}")
+                    else:
+                        acts.append("intr")
+                h.append(f"script {i} {rng.randint(0, 5)} {','.join(acts)}")
+    for _ in range(rng.randint(0, 2)):
+        r = rng.random()
+        if r < 0.5:
+            h.append(f"act rmt:{rng.choice(ids)}")
+        elif r < 0.7:
+            h.append("act intr")
+        else:
+            h.append(f"adv {rng.randint(0, 3)}")
+    for _ in range(rng.randint(1, 3)):
+        h.append("run all " + " ".join("-" if rng.random() < 0.9 else "I" for _ in range(rng.randint(0, 12))))
+        if rng.random() < 0.4:
+            h.append(f"act rmt:{rng.choice(allids)}")
+        if rng.random() < 0.2:
+            h.append(f"act mk:{rng.randint(30, 40)}:{rng.randint(1, 3)}")
+    return h
+
+
+def c14_mixed_history(rng, with_net=True):
+    h = []
+    clients = list(range(1, 1 + rng.randint(1, 4)))
+    listeners = list(range(10, 10 + (rng.randint(0, 2) if with_net else 0)))
+    ests = list(range(15, 15 + (rng.randint(0, 2) if with_net else 0)))
+    timers = list(range(20, 20 + rng.randint(0, 3)))
+    autos = list(range(1000, 1000 + 2 * (len(listeners) + len(ests)) + 1)) if with_net else []
+    for c in clients:
+        h.append(f"mkpair {c}")
+    for l in listeners:
+        h.append(f"mklisten {l}")
+    for e in ests:
+        h.append(f"mkconn {e}")
+    for t in timers:
+        h.append(f"act mk:{t}:{rng.randint(1, 3)}")
+    allc = clients + autos
+    socks = clients + listeners + ests + autos
+
+    def rand_act(owner):
+        r = rng.random()
+        if r < 0.22: return f"rd:{owner if rng.random() < 0.8 else rng.choice(allc)}"
+        if r < 0.40: return f"rmc:{owner if rng.random() < 0.5 else rng.choice(allc)}"
+        if r < 0.48: return f"sus:{rng.choice(allc)}"
+        if r < 0.56: return f"res:{rng.choice(allc)}"
+        if r < 0.68: return f"wr:{rng.choice(allc)}:{rng.choice([1, 5, 40])}:{rng.choice(['all', 'wb', 'half', '2', 'err'])}"
+        if r < 0.74 and listeners: return f"rml:{rng.choice(listeners)}"
+        if r < 0.80 and ests: return f"rme:{rng.choice(ests)}"
+        if r < 0.86 and timers: return f"rmt:{rng.choice(timers)}"
+        if r < 0.92: return f"mk:{rng.randint(30, 35)}:{rng.randint(1, 3)}"
+        if r < 0.96: return "intr"
+        return f"rd:{owner}"
+
+    for i in socks + timers:
+        for k in range(4):
+            if rng.random() < (0.5 if i < 1000 else 0.3):
+                acts = [rand_act(i if i in allc else rng.choice(allc)) for _ in range(rng.randint(1, 3))]
+                if i in listeners or i in ests:
+                    r = rng.random()
+                    if r < 0.3: acts.append("rmnew")
+                    if rng.random() < 0.25: acts.append("null")
+                    rng.shuffle(acts)
+                h.append(f"script {i} {k} {','.join(acts)}")
+    for _ in range(rng.randint(1, 4)):
+        for _ in range(rng.randint(0, 5)):
+            r = rng.random()
+            if r < 0.4: h.append(f"psend {rng.choice(allc)} {rng.choice([1, 3, 100])}")
+            elif r < 0.5: h.append(f"pclose {rng.choice(allc)}")
+            elif r < 0.7 and listeners: h.append(f"dial {rng.choice(listeners)}")
+            elif r < 0.85: h.append("act " + rand_act(rng.choice(allc)))
+            elif r < 0.9: h.append(f"adv {rng.randint(0, 3)}")
+            else: h.append("act intr")
+        entries = []
+        for _ in range(rng.randint(0, 10)):
+            r = rng.random()
+            ids = rng.sample(socks, min(len(socks), rng.randint(0, 5)))
+            e = ",".join(map(str, ids)) if ids else "-"
+            if rng.random() < 0.3: e += f"+{rng.randint(0, 3)}"
+            if r < 0.08: e = "I" + ("" if e.startswith("-") else e)
+            entries.append(e)
+        h.append(f"run {rng.choice(['all', 'all', 'half', 'wb', '1', 'err'])} " + " ".join(entries))
+    return h
+
+
+def c14_equal_due_exhaustive():
+    """1..8 timers created in the same virtual millisecond with the same interval; remove timer r (every
+    position) before run, or from the callback of timer q (every position); 3 rounds"""
+    hs = []
+    for n in range(1, 9):
+        for r in range(1, n + 1):
+            base = [f"act mk:{i}:2" for i in range(1, n + 1)]
+            hs.append(base + [f"act rmt:{r}", "run all - - -"])
+            hs.append(base + ["run all -", f"act rmt:{r}", "run all - -"])
+            for q in range(1, n + 1):
+                hs.append(base + [f"script {q} 0 rmt:{r}", "run all - - -"])
+                hs.append(base + [f"script {q} 1 rmt:{r},mk:{50 + r}:2", "run all - - - -"])
+    return hs
+
+
+class C14Stats:
+    def __init__(self):
+        self.lock = threading.Lock()
+        self.ev = {}
+        self.fail = []
+        self.envfail = 0
+
+    def nontrivial(self, h, out):
+        ev = {}
+        for o in out:
+            if o.startswith("ENV-FAIL"):
+                with self.lock:
+                    self.envfail += 1
+            if " | " not in o:
+                continue
+            for e in o.split(" | ")[0].split():
+                m = EV_RX.match(e)
+                if m:
+                    k = ("timer" if m.group(1) is not None else "client." + m.group(3) if m.group(2) is not None else
+                         "accepted" if m.group(4) is not None else "connected" if m.group(6) is not None else
+                         "abolished" if m.group(8) is not None else "ret")
+                    ev[k] = ev.get(k, 0) + 1
+        bad = c14_monitor(h, out) if len(out) == len(h) else None
+        with self.lock:
+            for k, v in ev.items():
+                self.ev[k] = self.ev.get(k, 0) + v
+            if bad:
+                self.fail.append((h, bad))
+        runs = [o.split(" | ")[0] for l, o in zip(h, out) if l.startswith("run")]
+        if not runs or all(r.count("@") <= 1 for r in runs):
+            return None
+        return (tuple(runs), out[-1])
+
+
+def check_c14(ctx):
+    ctx.assumptions += [
+        "kernel contract of epoll: only registered descriptors are reported, each at most once per call, with events of the registered mask (+ hang-up); the event descriptor is reported while its counter is non-zero",
+        "virtual time: Time::ticks() is read through the interposed clock_gettime; epoll_wait never sleeps but advances the virtual clock (by the time-out when nothing is reported)",
+        "MultiMap<int64, TimerImpl*> is a key-sorted multimap, FIFO among equal keys, whose find() returns the FIRST element with the key (property C01 with the repair of D1); without that repair the check reports D19",
+        "PoolList / HashSet / HashMap behave as their reference containers (C02, C03); allocation never fails",
+        "host-name resolving establishers (Server::connect(String…)) and Server::clear() are not modelled",
+    ]
+    proof_ok = C.proof_stage(ctx, PROPS["C14"], [DRIVER], leanchecker=(ctx.tier == "thorough"))
+    harness = build(ctx)
+    if harness is None or not C.driver_path(DRIVER).exists():
+        return
+    try:
+        rng = ctx.rng
+        quick = ctx.tier == "quick"
+        hs = C.load_corpus("C14")
+        ncorpus = len(hs)
+        ex = c14_equal_due_exhaustive()
+        nt, nm = (3000, 3000) if quick else (40000, 40000)
+        if not proof_ok:
+            nt, nm = nt * 3, nm * 3
+        tim = [c14_timer_history(rng, equal_due=(k % 2 == 0)) for k in range(nt)]
+        mix = [c14_mixed_history(rng, with_net=(k % 3 != 0)) for k in range(nm)]
+        hs = hs + ex + tim + mix
+        ctx.cov["rule"] = (f"corpus ({ncorpus}) + exhaustive equal-due scope: 1..8 timers created in one virtual millisecond with equal interval, "
+                           f"remove(timer r) for every r before run / between runs / from the callback of every timer q ({len(ex)} histories) + "
+                           f"{len(tim)} random timer programs (1..8 timers, intervals 1..3, create/remove/interrupt inside callbacks, interrupt before/during run) + "
+                           f"{len(mix)} random mixed programs (1..4 socket-pair clients, 0..2 loop-back listeners with dialling peers, 0..2 establishers, 0..3 timers; "
+                           "callback scripts with read/write/suspend/resume/remove of any object/remove of the client being accepted/null return/interrupt; "
+                           "poll rounds reporting any ordered subset of the sockets; peer send/close); distinct_nontrivial = distinct callback logs with >= 2 events")
+        ctx.cov["exhaustive"] = False
+        ctx.cov["exhaustive_scope"] = f"equal due times: n<=8 timers x remove position x remover position x 4 placements: {len(ex)} histories"
+        ops = {}
+        for h in hs:
+            for l in h:
+                ops[l.split()[0]] = ops.get(l.split()[0], 0) + 1
+        ctx.cov["op_histogram"] = ops
+        ctx.cov["samples"] = [" ; ".join(h) for h in (tim[-2:] + mix[-2:] + ex[len(ex) // 2: len(ex) // 2 + 1])]
+        st = C14Stats()
+        diffs = C.differential(ctx, harness, C.driver_path(DRIVER), hs, c14_reference, nontrivial=st.nontrivial, timeout=600)
+        ctx.cov["callbacks_seen"] = st.ev
+        ctx.cov["env_fail_lines"] = st.envfail
+        ctx.log(f"{len(hs)} histories, {ctx.cov['evaluations']} op lines, {len(diffs)} disagreement(s), monitor failures {len(st.fail)}; callbacks {st.ev}; env-fail {st.envfail}")
+        # a history in which the kernel did not behave as assumed is not evidence of anything
+        diffs = [d for d in diffs if not (d.impl or "").startswith("ENV-FAIL")]
+        C.report_diffs(ctx, diffs, harness, C.driver_path(DRIVER), c14_reference, C.default_eq, "server-loop")
+        seen = set()
+        for h, bad in st.fail:
+            sig = bad.split(":")[0]
+            if sig in seen or len(seen) >= 3:
+                continue
+            seen.add(sig)
+            small = c14_shrink(harness, h, sig)
+            ctx.violation("event-loop property violated on the implementation: " + bad, "\n".join(small) + f"\n# {bad}\n",
+                          signature=sig)
+    finally:
+        try:
+            harness.unlink()
+        except OSError:
+            pass
+
+
+def c14_shrink(harness, h, sig):
+    def fails(c):
+        out, rc, _ = C.run_lines(harness, ["reset"] + c, timeout=60)
+        out = out[1:]
+        if len(out) != len(c):
+            return False
+        b = c14_monitor(c, out)
+        return bool(b) and b.split(":")[0] == sig
+    try:
+        return C.ddmin(h, fails)
+    except Exception:
+        return h
+
+
 def check(ctx):
     if ctx.prop == "C13":
         check_c13(ctx)
@@ -332,15 +809,11 @@ def check(ctx):
         check_c14(ctx)
 
 
-def check_c14(ctx):
-    ctx.broken.append("C14 check not built yet")
-
-
 def replay(ctx, path):
     h = C.parse_replay(path)
     harness = build(ctx)
     C.lake_build([DRIVER])
-    ref = c13_reference if ctx.prop == "C13" else None
+    ref = c13_reference if ctx.prop == "C13" else c14_reference
     diffs = C.differential(ctx, harness, C.driver_path(DRIVER), [h], ref)
     for d in diffs:
         print(d.text())
@@ -350,4 +823,10 @@ def replay(ctx, path):
         bad = c13_stream_check(h, out[1:])
         if bad:
             ctx.violation("replay: stream property: " + bad, "\n".join(h) + "\n", signature="stream")
+    if ctx.prop == "C14":
+        out, _, _ = C.run_lines(harness, ["reset"] + h)
+        bad = c14_monitor(h, out[1:])
+        if bad:
+            print(bad)
+            ctx.violation("replay: event-loop property: " + bad, "\n".join(h) + "\n", signature=bad.split(":")[0])
     harness.unlink()
